@@ -21,6 +21,7 @@
 #include <unifex/stop_token_concepts.hpp>
 
 #include <condition_variable>
+#include <exception>
 #include <mutex>
 #include <type_traits>
 
@@ -65,12 +66,26 @@ private:
   static void execute_impl(task_base* t) noexcept {
     auto& self = *static_cast<type*>(t);
     if constexpr (is_stop_never_possible_v<stop_token_type>) {
-      unifex::set_value(std::move(self.receiver_));
+      if constexpr (is_nothrow_receiver_of_v<Receiver>) {
+        unifex::set_value(std::move(self.receiver_));
+      } else {
+        UNIFEX_TRY { unifex::set_value(std::move(self.receiver_)); }
+        UNIFEX_CATCH(...) {
+          unifex::set_error(std::move(self.receiver_), std::current_exception());
+        }
+      }
     } else {
       if (get_stop_token(self.receiver_).stop_requested()) {
         unifex::set_done(std::move(self.receiver_));
       } else {
-        unifex::set_value(std::move(self.receiver_));
+        if constexpr (is_nothrow_receiver_of_v<Receiver>) {
+          unifex::set_value(std::move(self.receiver_));
+        } else {
+          UNIFEX_TRY { unifex::set_value(std::move(self.receiver_)); }
+          UNIFEX_CATCH(...) {
+            unifex::set_error(std::move(self.receiver_), std::current_exception());
+          }
+        }
       }
     }
   }
